@@ -326,6 +326,20 @@ func locState(loc *core.Location) core.State {
 	return nil
 }
 
+// lastUsedElsewhere returns some other location of the system (the first in name order), or loc itself when it is alone.
+func (s *locSys) lastUsedElsewhere(name string, loc *core.Location) *core.Location {
+	best := ""
+	for n := range s.locs {
+		if n != name && (best == "" || n < best) {
+			best = n
+		}
+	}
+	if best == "" {
+		return loc
+	}
+	return s.locs[best]
+}
+
 func (s *locSys) step(op map[string]interface{}) map[string]interface{} {
 	name, _ := op["loc"].(string)
 	if name == "" {
@@ -342,7 +356,9 @@ func (s *locSys) step(op map[string]interface{}) map[string]interface{} {
 		// requests that arrive through the HTTP service run in a sub-context of the service's context
 		ctx = ctx.SubContext()
 	}
-	ctx.SetLoc(loc)
+	// the caller's context was last used with ANOTHER location of the system when there is one (callers reuse contexts):
+	// every Location method points the context at its own location before anything else
+	ctx.SetLoc(s.lastUsedElsewhere(name, loc))
 	id, _ := op["id"].(string)
 	kind, _ := op["op"].(string)
 	switch kind {
